@@ -1,27 +1,72 @@
 (* Corr/C03.v — secret plaintext never reaches redacted output. *)
-From Verif Require Import Base.Bytes Base.Wire Model.Chain Model.GoText Model.Eval Corr.EvalWire.
+From Verif Require Import Base.Bytes Base.Wire Model.Chain Model.GoText Model.Eval Model.Redact Corr.EvalWire.
+
+(* the second run of a case of the SHAPE family: the same program with other secret payloads - static secret texts in
+   [r2_def] / the environments of [r2_world], provider payloads in the provider table of [r2_world] (same provider
+   names, same schemas) - and the value the implementation computed for it *)
+Record run2 := { r2_def : envdef; r2_world : world; r2_value : xval }.
 
 Record case := {
   c_name : string; c_def : envdef; c_world : world; c_obs : iobs;
   c_compared : bool;     (* both runs (original and substituted secrets) finished without diagnostics *)
   c_equal : bool;        (* their redacted renderings (JSON, string, environment variables) are byte-identical *)
-  c_composite : bool     (* some provider returns a composite flagged secret whose children are not flagged *)
+  c_composite : bool;    (* some provider returns a composite flagged secret whose children are not flagged *)
+  c_run2 : option run2
 }.
 
 Definition spec_fail (c : case) : bool :=
   (c_compared c && negb (c_equal c)) || match c_obs c with ICrash | IPanic => true | _ => false end.
 
+(* the model's exported value of a run; None: out of fuel / outside the model's fragment / no value *)
+Definition model_value (W : world) (name : string) (d : envdef) : option xval :=
+  let r := run model_fuel W name d in if ob_oof r then None else ob_value r.
+
+(* the implementation agrees with the model on the first run (value, diagnostics flag, call log) and, where the case
+   carries a second run, on the value of the second run *)
 Definition mismatch (c : case) : bool :=
-  match compare_run (c_world c) (c_name c) (c_def c) (c_obs c) with CmpDiff => true | _ => false end.
+  match compare_run (c_world c) (c_name c) (c_def c) (c_obs c) with CmpDiff => true | _ => false end
+  || match c_run2 c with
+     | Some r => match model_value (r2_world r) (c_name c) (r2_def r) with
+                 | Some v => negb (xeq (r2_value r) v)
+                 | None => false
+                 end
+     | None => false
+     end.
+
+(* ------------------------------------------------------------------------------------------------ *)
+(* every environment definition of a case: the root and what the loader serves *)
+Definition all_defs (W : world) (d : envdef) : list envdef :=
+  d :: concat (map (fun ne => match snd ne with LoadOk d' => [d'] | _ => [] end) (w_envs W)).
+
+Definition prog_exists (f : expr -> bool) (W : world) (d : envdef) : bool :=
+  existsb (fun d' => existsb (fun kv => f (snd kv)) (ed_values d')) (all_defs W d).
 
 (* known finding C03-fromjson-null: esc.FromJSON returns Value{} for JSON null, dropping the secret flag, so a secret JSON
-   text "null" versus any other document is visible in redacted output.  Class: the program applies fn::fromJSON. *)
+   text "null" versus any other document is visible in redacted output.
+   Class: some environment applies fn::fromJSON to an argument that CAN be secret - syntactically: the argument mentions a
+   static secret, a ciphertext, a provider or a reference (a fromJSON of a public literal is outside the class) - and some
+   static secret is a JSON document containing null. *)
+Fixpoint mentions_secret (fuel : nat) (e : expr) : bool :=
+  match fuel with
+  | O => true
+  | S f =>
+    match e with
+    | ESecretPlain _ | ESecretCipher _ | EOpen _ _ | ESym _ => true
+    | EInterp ps => existsb (fun p => match snd p with Some _ => true | None => false end) ps
+    | EArr l => existsb (mentions_secret f) l
+    | EObj kvs => existsb (fun kv => mentions_secret f (snd kv)) kvs
+    | EJoin a b => mentions_secret f a || mentions_secret f b
+    | EToJSON a | EFromJSON a | EToString a | EToB64 a | EFromB64 a => mentions_secret f a
+    | _ => false
+    end
+  end.
+
 Fixpoint has_fromjson (fuel : nat) (e : expr) : bool :=
   match fuel with
   | O => false
   | S f =>
     match e with
-    | EFromJSON _ => true
+    | EFromJSON a => mentions_secret f a || has_fromjson f a
     | EArr l => existsb (has_fromjson f) l
     | EObj kvs => existsb (fun kv => has_fromjson f (snd kv)) kvs
     | EJoin a b => has_fromjson f a || has_fromjson f b
@@ -59,26 +104,144 @@ Fixpoint has_null_secret (fuel : nat) (e : expr) : bool :=
     end
   end.
 
-Definition known (c : case) : bool :=
-  existsb (fun kv => has_fromjson wire_fuel (snd kv)) (ed_values (c_def c))
-  && existsb (fun kv => has_null_secret wire_fuel (snd kv)) (ed_values (c_def c)).
-(* a failure counts as the RECORDED finding only when the model - which reproduces that finding - predicts exactly what the
-   implementation did on this case; any further deviation makes it a new failure with this input as the replay *)
+Definition fromjson_of_secret (W : world) (d : envdef) : bool := prog_exists (has_fromjson wire_fuel) W d.
+
+Definition known_null (c : case) : bool :=
+  (fromjson_of_secret (c_world c) (c_def c) && prog_exists (has_null_secret wire_fuel) (c_world c) (c_def c))
+  || match c_run2 c with
+     | Some r => fromjson_of_secret (r2_world r) (r2_def r) && prog_exists (has_null_secret wire_fuel) (r2_world r) (r2_def r)
+     | None => false
+     end.
+
+(* ------------------------------------------------------------------------------------------------ *)
+(* known finding C03-secret-shape: the SHAPE of a secret composite (its keys; whether it is a scalar, an array or an
+   object) is readable in redacted output once a public object is merged over it - the merged object is not flagged, its
+   inherited members are listed by name with the value [secret].
+   Class: the two runs' secret payloads differ in shape - a provider's constant output (decidable: [same_shape]), or a
+   static secret document decoded by fn::fromJSON ([json_same_shape]) - and the MODEL, which reproduces the finding
+   (Properties/C03.v, C03_noninterference_shape_refuted), predicts different redacted renderings for the two runs. *)
+Definition all2 {A : Type} (f : A -> A -> bool) : list A -> list A -> bool :=
+  fix go (l l' : list A) : bool :=
+    match l, l' with
+    | [], [] => true
+    | x :: r, y :: r' => f x y && go r r'
+    | _, _ => false
+    end.
+
+Definition scalar_kind_eqb (a b : scalar) : bool :=
+  match a, b with
+  | SNull, SNull | SBool _, SBool _ | SNum _, SNum _ | SStr _, SStr _ => true
+  | _, _ => false
+  end.
+
+(* same constructors, same flags at every node, same keys in the same order, same lengths, same kinds of scalars *)
+Fixpoint same_shape (a b : xval) : bool :=
+  match a, b with
+  | XScalar s u x, XScalar s' u' y => Bool.eqb s s' && Bool.eqb u u' && scalar_kind_eqb x y
+  | XArr s u l, XArr s' u' l' => Bool.eqb s s' && Bool.eqb u u' && all2 same_shape l l'
+  | XObj s u m, XObj s' u' m' =>
+      Bool.eqb s s' && Bool.eqb u u'
+      && all2 (fun kv kv' => String.eqb (fst kv) (fst kv') && same_shape (snd kv) (snd kv')) m m'
+  | _, _ => false
+  end.
+
+Fixpoint json_same_shape (a b : json) : bool :=
+  match a, b with
+  | JNull, JNull | JBool _, JBool _ | JNum _, JNum _ | JStr _, JStr _ => true
+  | JArr l, JArr l' => all2 json_same_shape l l'
+  | JObj m, JObj m' => all2 (fun kv kv' => String.eqb (fst kv) (fst kv') && json_same_shape (snd kv) (snd kv')) m m'
+  | _, _ => false
+  end.
+
+(* provider tables, entry by entry: some constant output differs in shape (the class of the theorem
+   C03_noninterference_partial) *)
+Definition shape_class_provs (ps1 ps2 : list (string * provider)) : bool :=
+  existsb (fun pq => match pv_beh (snd (fst pq)), pv_beh (snd (snd pq)) with
+                     | PConst v1, PConst v2 => negb (same_shape v1 v2)
+                     | _, _ => false
+                     end) (combine ps1 ps2).
+
+Definition shape_class (W1 W2 : world) : bool := shape_class_provs (w_provs W1) (w_provs W2).
+
+(* static secrets at the same position of the two programs whose texts are JSON documents of different shape *)
+Fixpoint docs_differ (fuel : nat) (e1 e2 : expr) : bool :=
+  match fuel with
+  | O => false
+  | S f =>
+    match e1, e2 with
+    | ESecretPlain s1, ESecretPlain s2 =>
+        match json_parse s1, json_parse s2 with
+        | JPOk j1, JPOk j2 => negb (json_same_shape j1 j2)
+        | _, _ => false
+        end
+    | EArr l1, EArr l2 => existsb (fun p => docs_differ f (fst p) (snd p)) (combine l1 l2)
+    | EObj m1, EObj m2 => existsb (fun p => docs_differ f (snd (fst p)) (snd (snd p))) (combine m1 m2)
+    | EJoin a1 b1, EJoin a2 b2 => docs_differ f a1 a2 || docs_differ f b1 b2
+    | EToJSON a1, EToJSON a2 | EFromJSON a1, EFromJSON a2 | EToString a1, EToString a2
+    | EToB64 a1, EToB64 a2 | EFromB64 a1, EFromB64 a2 => docs_differ f a1 a2
+    | EOpen _ a1, EOpen _ a2 => docs_differ f a1 a2
+    | _, _ => false
+    end
+  end.
+
+Definition defs_docs_differ (d1 d2 : envdef) : bool :=
+  existsb (fun p => docs_differ wire_fuel (snd (fst p)) (snd (snd p))) (combine (ed_values d1) (ed_values d2)).
+
+Definition prog_docs_differ (W1 : world) (d1 : envdef) (W2 : world) (d2 : envdef) : bool :=
+  existsb (fun p => defs_docs_differ (fst p) (snd p)) (combine (all_defs W1 d1) (all_defs W2 d2)).
+
+Definition list_str_eqb (a b : list string) : bool := all2 String.eqb a b.
+
+(* what the model renders for the two runs, redacted: JSON, string, environment variables, temporary files *)
+Definition model_renderings_differ (c : case) (r : run2) : bool :=
+  match model_value (c_world c) (c_name c) (c_def c), model_value (r2_world r) (c_name c) (r2_def r) with
+  | Some v1, Some v2 =>
+      negb (String.eqb (json_print wire_fuel (x_redact_json v1)) (json_print wire_fuel (x_redact_json v2))
+            && String.eqb (x_redact_string v1) (x_redact_string v2)
+            && list_str_eqb (env_vars_redacted v1) (env_vars_redacted v2)
+            && list_str_eqb (temp_files_redacted v1) (temp_files_redacted v2))
+  | _, _ => false
+  end.
+
+Definition known_shape (c : case) : bool :=
+  match c_run2 c with
+  | Some r =>
+      (shape_class (c_world c) (r2_world r)
+       || (fromjson_of_secret (c_world c) (c_def c) && prog_docs_differ (c_world c) (c_def c) (r2_world r) (r2_def r)))
+      && model_renderings_differ c r
+  | None => false
+  end.
+
+Definition known (c : case) : bool := known_null c || known_shape c.
+(* a failure counts as a RECORDED finding only when the model - which reproduces both findings - predicts exactly what
+   the implementation did on this case (first run: value, diagnostics flag, log; second run: value); any further
+   deviation makes it a new failure with this input as the replay *)
 Definition spec_fail_new (c : case) : bool := spec_fail c && negb (known c && negb (mismatch c)).
 Definition spec_fail_known (c : case) : bool := spec_fail c && known c && negb (mismatch c).
 Definition nontrivial (c : case) : bool := c_compared c.
 
+Definition dec_run2 (x : sexp) : option (option run2) :=
+  match x with
+  | Atom "none" => Some None
+  | SList [d; w; v] =>
+      match dec_envdef d, dec_world w, dec_xval wire_fuel v with
+      | Some d, Some w, Some v => Some (Some {| r2_def := d; r2_world := w; r2_value := v |})
+      | _, _, _ => None
+      end
+  | _ => None
+  end.
+
 Definition decode (x : sexp) : option case :=
   match x with
-  | SList [Atom "c03"; n; d; w; o; cmp; eq; comp] =>
-      match atom_str n, dec_envdef d, dec_world w, dec_obs o with
-      | Some n, Some d, Some w, Some o =>
+  | SList [Atom "c03"; n; d; w; o; cmp; eq; comp; r2] =>
+      match atom_str n, dec_envdef d, dec_world w, dec_obs o, dec_run2 r2 with
+      | Some n, Some d, Some w, Some o, Some r2 =>
           match atom_bool cmp, atom_bool eq, atom_bool comp with
           | Some a, Some b, Some c => Some {| c_name := n; c_def := d; c_world := w; c_obs := o;
-                                              c_compared := a; c_equal := b; c_composite := c |}
+                                              c_compared := a; c_equal := b; c_composite := c; c_run2 := r2 |}
           | _, _, _ => None
           end
-      | _, _, _, _ => None
+      | _, _, _, _, _ => None
       end
   | _ => None
   end.
